@@ -231,6 +231,10 @@ def install():
     for nm in ("numpy.abs", "numpy.absolute"):
         libmodels.LIB[nm] = _wrap(np_abs, libmodels.LIB.get(nm), nm)
 
+    @libmodels.api("nan_value")
+    def _nan_value(interp, args, kwargs, node, frame):
+        return NAN
+
     @libmodels.api("agg_frame")
     def _agg_frame(interp, args, kwargs, node, frame):
         return AggFrame(kwargs.get("n", args[0] if args else None), kwargs.get("label", "df"), kwargs.get("columns", ()))
